@@ -181,7 +181,16 @@ def check(ctx):
     for f, n in ins:
         a = strip_casts(kids(n)[1])
         d = single_def(f, a['ref']['id']) if a.get('ref', {}).get('k') == 'Local' else a
-        okb = okb and d is not None and strip_casts(d).get('callee', {}).get('n') == 'engine::create_promotion'
+        dn = strip_casts(d).get('callee', {}).get('n') if d is not None else None
+        g_ = p.funcs.get((strip_casts(d).get('callee') or {}).get('fid')) if d is not None else None
+        if dn != 'engine::create_promotion' and g_ is not None and p.is_new_function(g_):
+            # built by a helper the reference tree did not have: does every return of it come from create_promotion?
+            rets_ = [r_ for r_ in g_.all_nodes() if r_['k'] == 'ReturnStmt' and kids(r_)]
+            if rets_ and all(strip_casts(kids(r_)[0]).get('callee', {}).get('n') == 'engine::create_promotion' for r_ in rets_):
+                continue
+            raise AnalysisBroken('C15: the move stored in the book map is built by %s, a function the reference tree did not have, in a '
+                                 'form the rule does not follow' % short(g_.name))
+        okb = okb and d is not None and dn == 'engine::create_promotion'
     ctx.ob('C15.R2.book-moves-plain', 'PolyglotBook', okb,
            'every move stored in the book map is built by create_promotion (never castling-coded), so decode_move may read its from/to',
            site=dm.loc())
